@@ -2870,7 +2870,7 @@ func (dsc *dataStoreCommand) setMove(source, destination, memberName string) (ou
 		return
 	}
 
-	added, wrongType := dsc.setAddWorkerUnlocked(destination, []string{memberName}, SET_NOT_EXIST)
+	_, wrongType := dsc.setAddWorkerUnlocked(destination, []string{memberName}, SET_NOT_EXIST)
 	if wrongType {
 		output.data = wrongTypeError
 		return
@@ -2878,7 +2878,8 @@ func (dsc *dataStoreCommand) setMove(source, destination, memberName string) (ou
 
 	ss.remove(memberName)
 
-	output.data = respInt(added)
+	// the member was moved out of the source, whether or not the destination already had it
+	output.data = respInt(1)
 	return
 }
 
